@@ -70,8 +70,9 @@ Definition erase_kw (b : blockkw) : blockkw :=
 Definition erase_item (it : item) : item :=
   match it with
   | IKeyword b => IKeyword (erase_kw b)
-  | IQty d n => IQty (erase_tname d) (erase_tname n)
+  | IQty d n tg => IQty (erase_tname d) (erase_tname n) tg
   | ILog n => ILog (erase_tname n)
+  | ILogList tg => ILogList tg
   | IEqn d dy st => IEqn (erase_tname d) (erase_side dy) (match st with Some s => Some (erase_side s) | None => None end)
   | ISubs nm _ b => ISubs nm false (erase_expr b)
   end.
@@ -297,25 +298,33 @@ Definition erase_coll (c : collected) : collected :=
   mkColl (c_block c) (c_decls c) (c_log c) (c_allbut c) (map erase_eqn (c_eqns c))
          (map (fun nb : string * expr => (fst nb, erase_expr (snd nb))) (c_subs c)).
 
-Lemma collect1_erase st it :
-  collect1 (option_map erase_coll st) (erase_item it) = option_map erase_coll (collect1 st it).
+Lemma collect1_erase tags st it :
+  collect1 tags (option_map erase_coll st) (erase_item it) = option_map erase_coll (collect1 tags st it).
 Proof.
   destruct st as [c|]; [|reflexivity].
-  destruct it as [b|d n|n|d dy sd|nm a b]; simpl.
+  destruct it as [b|d n tg|n|tg|d dy sd|nm a b]; simpl.
   - destruct b; reflexivity.
   - destruct (c_block c); try reflexivity. rewrite !close_erase.
     destruct (close_name d); [|reflexivity]. destruct (close_name n); reflexivity.
   - destruct (c_block c); try reflexivity. rewrite close_erase. destruct (close_name n); reflexivity.
+  - destruct (c_block c); reflexivity.
   - destruct (c_block c); try reflexivity. rewrite close_erase. destruct (close_name d); [|reflexivity].
     simpl. unfold erase_coll. simpl. rewrite map_app. reflexivity.
   - destruct (c_block c); try reflexivity. simpl. unfold erase_coll. simpl. rewrite map_app. reflexivity.
 Qed.
 
+Lemma tags_of_erase items : tags_of (map erase_item items) = tags_of items.
+Proof.
+  unfold tags_of. induction items as [|it r IH]; [reflexivity|]. simpl. rewrite IH. f_equal.
+  destruct it as [b|d n [tg|]|n|tg|d dy sd|nm a b]; simpl; try reflexivity.
+  rewrite close_erase. reflexivity.
+Qed.
+
 Lemma collect_erase items : collect (map erase_item items) = option_map erase_coll (collect items).
 Proof.
-  unfold collect.
-  assert (H : forall st, fold_left collect1 (map erase_item items) (option_map erase_coll st)
-                         = option_map erase_coll (fold_left collect1 items st)).
+  unfold collect. rewrite tags_of_erase. generalize (tags_of items) as tags. intros tags.
+  assert (H : forall st, fold_left (collect1 tags) (map erase_item items) (option_map erase_coll st)
+                         = option_map erase_coll (fold_left (collect1 tags) items st)).
   { induction items as [|it r IH]; intros st; [reflexivity|]. simpl. rewrite collect1_erase. apply IH. }
   apply (H (Some coll0)).
 Qed.
